@@ -30,7 +30,7 @@ type Client struct {
 }
 
 type Fault struct {
-	Kind   string `json:"kind"` // none | kill-restart | pause | member-add (a 4th node joins; Target = the node that is asked) | member-remove (Target leaves; asked through another node) | isolate (Target is cut off from the others; Target 0 = whoever leads at that moment) | cut-pair (the link Target <-> Other is cut, both still reach the third node) | flap (Target is cut off and reconnected every FlapMs)
+	Kind   string `json:"kind"` // none | kill-restart | pause | pause-followers (both nodes that do not lead are frozen for DurMs) | member-add (a 4th node joins; Target = the node that is asked) | member-remove (Target leaves; asked through another node) | isolate (Target is cut off from the others; Target 0 = whoever leads at that moment) | cut-pair (the link Target <-> Other is cut, both still reach the third node) | flap (Target is cut off and reconnected every FlapMs)
 	Target int    `json:"target"`
 	AtMs   int    `json:"at_ms"`
 	DurMs  int    `json:"dur_ms"`
@@ -145,7 +145,17 @@ func genCase(t *rapid.T) Case {
 		c.Clients = append(c.Clients, cl)
 	}
 	if c.Nodes == 3 {
-		switch rapid.IntRange(0, 4).Draw(t, "fault") {
+		switch rapid.IntRange(0, 5).Draw(t, "fault") {
+		case 5:
+			// commits delayed by seconds while the leader stays: clients of the leader keep counters and lists
+			// moving (what a command does twice shows there)
+			c.Faults = append(c.Faults, Fault{Kind: "pause-followers", AtMs: rapid.IntRange(100, 400).Draw(t, "at"), DurMs: rapid.SampledFrom([]int{2500, 3200, 4500}).Draw(t, "dur")})
+			for i := range c.Clients {
+				for len(c.Clients[i].Ops) < 120 {
+					c.Clients[i].Ops = append(c.Clients[i].Ops, genOp(t, i, len(c.Clients[i].Ops)))
+				}
+			}
+			c.PaceUs = 30000
 		case 3:
 			// the same node goes down and comes back twice while its clients keep (re)connecting: they
 			// talk to it while it replays its log
@@ -566,6 +576,27 @@ func exec(c Case) kit.Outcome {
 					hist = append(hist, op)
 					mu.Unlock()
 				}
+			case "pause-followers":
+				// both nodes that do not lead are frozen: nothing commits meanwhile, the leader keeps its role (a
+				// frozen node's election timer does not run), and everything commits when they resume - commands
+				// are delayed by seconds, not lost
+				lead := cl.Leader()
+				if lead == 0 {
+					lead = 1
+				}
+				var others []int
+				for n := 1; n <= c.Nodes; n++ {
+					if n != lead {
+						others = append(others, n)
+					}
+				}
+				for _, n := range others {
+					cl.Signal(n, syscall.SIGSTOP)
+				}
+				time.Sleep(time.Duration(f.DurMs) * time.Millisecond)
+				for _, n := range others {
+					cl.Signal(n, syscall.SIGCONT)
+				}
 			case "pause":
 				cl.Signal(f.Target, syscall.SIGSTOP)
 				time.Sleep(time.Duration(f.DurMs) * time.Millisecond)
@@ -633,38 +664,58 @@ func exec(c Case) kit.Outcome {
 			return o
 		}
 	}
+	notServing := false
+	readVia := members[0]
 	if err := cl.WaitServing(30*time.Second, members); err != nil {
 		logs := cl.Logs(500)
-		cl.Stop()
-		delete(clusters, ckey)
-		// not serving again is liveness: reported as inconclusive unless a node died with a panic
+		// not serving again is liveness: not a violation by itself unless a node died with a panic
 		if strings.Contains(logs, "panic:") || strings.Contains(logs, "fatal error:") {
+			cl.Stop()
+			delete(clusters, ckey)
 			o.Fail = "after the faults were healed the cluster does not serve and a node reports a crash: " + err.Error() + "\n" + firstN(logs, 1200)
 			return o
 		}
-		o.Inconclusive = true
+		// ... but what the clients saw until then is still a history that must be linearizable: judge it,
+		// with final reads through a member that does serve (reads go through the log as well)
+		notServing = true
 		o.Labels = append(o.Labels, "cluster-not-serving-after-heal")
-		return o
+		readVia = 0
+		for _, m := range members {
+			if cl.WaitServing(4*time.Second, []int{m}) == nil {
+				readVia = m
+				break
+			}
+		}
+		defer func() {
+			cl.Stop()
+			delete(clusters, ckey)
+		}()
 	}
 	// (2) replicas agree at quiescence
-	var dumps []string
-	for _, i := range members {
-		d, err := dumpNode(cl, i)
-		if err != nil {
-			o.Inconclusive = true
-			o.Labels = append(o.Labels, "dump-failed")
-			return o
+	if !notServing {
+		var dumps []string
+		for _, i := range members {
+			d, err := dumpNode(cl, i)
+			if err != nil {
+				o.Inconclusive = true
+				o.Labels = append(o.Labels, "dump-failed")
+				return o
+			}
+			dumps = append(dumps, d)
 		}
-		dumps = append(dumps, d)
-	}
-	for i := 1; i < len(dumps); i++ {
-		if dumps[i] != dumps[0] {
-			o.Fail = fmt.Sprintf("replicas disagree at quiescence (all members up, barrier write acknowledged through each):\n--- node %d\n%s--- node %d\n%s", members[0], dumps[0], members[i], dumps[i])
-			return o
+		for i := 1; i < len(dumps); i++ {
+			if dumps[i] != dumps[0] {
+				o.Fail = fmt.Sprintf("replicas disagree at quiescence (all members up, barrier write acknowledged through each):\n--- node %d\n%s--- node %d\n%s", members[0], dumps[0], members[i], dumps[i])
+				return o
+			}
 		}
 	}
 	// (1) linearizability, with the final state read through node 1 as last operations
-	cn, err := cl.Dial(members[0])
+	var cn *srv.Conn
+	err = fmt.Errorf("no member serves")
+	if readVia != 0 {
+		cn, err = cl.Dial(readVia)
+	}
 	if err == nil {
 		reads := [][]string{{"GET", "s0"}, {"GET", "s1"}, {"LRANGE", "l0", "0", "-1"}, {"SMEMBERS", "t0"}, {"HGETALL", "h0"}}
 		if c.Multi {
@@ -716,6 +767,9 @@ func exec(c Case) kit.Outcome {
 	case porcupine.Unknown:
 		o.Inconclusive = true
 		o.Labels = append(o.Labels, "porcupine-budget-exhausted")
+	}
+	if notServing && o.Fail == "" {
+		o.Inconclusive = true // the history so far is fine; that the cluster did not come back is liveness
 	}
 	return o
 }
@@ -809,7 +863,7 @@ func genPartitionCase(t *rapid.T) Case {
 		f := Fault{AtMs: at, Black: rapid.Bool().Draw(t, "black")}
 		switch gen.Weighted(t, "lf", []int{4, 3, 2, 2}) {
 		case 0:
-			f.Kind, f.Target, f.DurMs = "isolate", 0, rapid.SampledFrom([]int{5200, 6500}).Draw(t, "dur")
+			f.Kind, f.Target, f.DurMs = "isolate", 0, rapid.SampledFrom([]int{2600, 5200, 6500}).Draw(t, "dur")
 		case 1:
 			f.Kind, f.Target, f.DurMs = "isolate", 1+rapid.IntRange(0, 2).Draw(t, "target"), rapid.SampledFrom([]int{800, 5200}).Draw(t, "dur")
 		case 2:
@@ -858,6 +912,45 @@ func TestPartitions(t *testing.T) {
 	kit.Check(t, kit.Spec[Case]{Sub: "load", Quick: 1, Thorough: 8, Gen: genPartitionCase, Exec: exec, NoShrink: true})
 }
 
+// genDelayedCase: commits delayed by seconds - twice in a row both followers are frozen while two clients
+// per node keep counters, strings and lists moving - and nothing lost: whatever an implementation does
+// about commands that take long (wait, retry, hand in again) must not make a command take effect twice.
+func genDelayedCase(t *rapid.T) Case {
+	c := Case{Nodes: 3, PaceUs: 25000}
+	d1 := rapid.SampledFrom([]int{2500, 3200, 4500}).Draw(t, "d1")
+	c.Faults = append(c.Faults, Fault{Kind: "pause-followers", AtMs: rapid.IntRange(150, 500).Draw(t, "at"), DurMs: d1},
+		Fault{Kind: "pause-followers", AtMs: d1 + 2500 + rapid.IntRange(0, 800).Draw(t, "gap"), DurMs: rapid.SampledFrom([]int{2500, 3200}).Draw(t, "d2")})
+	for ci := 0; ci < 6; ci++ {
+		cl := Client{Node: 1 + ci%3}
+		for j := 0; j < 140; j++ {
+			uniq := fmt.Sprintf("c%d-%d", ci, j)
+			switch gen.Weighted(t, "dop", []int{5, 3, 4, 2, 3, 2, 2}) {
+			case 0:
+				cl.Ops = append(cl.Ops, kit.MkCmd("INCR", "s1"))
+			case 1:
+				cl.Ops = append(cl.Ops, kit.MkCmd("APPEND", "s0", "x"))
+			case 2:
+				cl.Ops = append(cl.Ops, kit.MkCmd("LPUSH", "l0", uniq))
+			case 3:
+				cl.Ops = append(cl.Ops, kit.MkCmd("RPOP", "l0"))
+			case 4:
+				cl.Ops = append(cl.Ops, kit.MkCmd("GET", gen.Pick(t, "gk", "s0", "s1")))
+			case 5:
+				cl.Ops = append(cl.Ops, kit.MkCmd("LRANGE", "l0", "0", "-1"))
+			default:
+				cl.Ops = append(cl.Ops, kit.MkCmd("HSET", "h0", "f", uniq))
+			}
+		}
+		c.Clients = append(c.Clients, cl)
+	}
+	return c
+}
+
+func TestDelayedCommits(t *testing.T) {
+	defer stopAll()
+	kit.Check(t, kit.Spec[Case]{Sub: "load", Quick: 1, Thorough: 6, Gen: genDelayedCase, Exec: exec, NoShrink: true})
+}
+
 func TestMembership(t *testing.T) {
 	defer stopAll()
 	kit.Check(t, kit.Spec[Case]{Sub: "load", Quick: 1, Thorough: 6, Gen: genMemberCase, Exec: exec, NoShrink: true})
@@ -886,5 +979,5 @@ func TestReplay(t *testing.T) {
 			}
 		}
 		return o
-	})})
+	}), "nondet": kit.ReplaySub(execNondet)})
 }
